@@ -1,4 +1,6 @@
 import Hertz.Proofs.Recycle
+import Hertz.Proofs.PoolOwn
+import Hertz.Gen.PoolSites
 /-!
 # C09 — a recycled context, request or response is indistinguishable from a fresh one
 
@@ -265,6 +267,101 @@ example : ∀ y ∈ poolRun releaseCookie zero_Cookie
       [.put o₀ { zero_Cookie with key := [107], value := [118], httpOnly := true, sameSite := 3 }, .get 0] [],
     obsCookie y = obsCookie zero_Cookie := by decide
 
+
+/-! ## ownership of pooled objects along every path of `Serve` (`Model/PoolOwn.lean`)
+
+Pools are multisets of identities, `Put` is unconditional, `Get` takes any stored identity or a new one; a run is ANY
+list of events (any length, any interleaving of any number of connections; an event that does not fit the control
+point of its connection is a no-op). -/
+section Ownership
+open Hertz.PoolOwn
+
+/-- The acquire / release sites (with their guards) of `Server.Serve`, `putRequestContext`, `ReleaseBodyStream`,
+`ContinueReadBodyStream`, `hijackConnHandler`, `hijackConn.Close`, `Request.BodyBuffer/ResetBody` in the current
+source are the ones the state machine was written against: a new `Put`/`Release*` site (or a changed guard)
+breaks this theorem. -/
+theorem release_sites_match_gen : Hertz.Gen.PoolSites.sites = expectedSites := by decide
+
+/-- the whole discipline, along every run -/
+theorem ownership_invariant (es : List Ev) : Inv (run init es) := inv_run _ _ inv_init
+
+/-- A pool never contains one identity twice. -/
+theorem no_double_put (es : List Ev) (k : Kind) : ((run init es).pool k).Nodup :=
+  (ownership_invariant es).nodup k
+
+/-- An object a live connection holds (its context; the request's body stream while the handler may run and on the
+early returns that skip the release; the hijack conn while the hijack handler runs) is not in its pool. -/
+theorem no_use_after_put (es : List Ev) (c : Nat) (cn : Conn) (k : Kind) (x : Nat)
+    (hc : (run init es).conns c = some cn) (hx : cn.holds k x) : x ∉ (run init es).pool k :=
+  (ownership_invariant es).notPooled c cn k x hc hx
+
+/-- Two live connections never hold the same object. -/
+theorem distinct_owners (es : List Ev) (c d : Nat) (cn dn : Conn) (k : Kind) (x : Nat)
+    (hc : (run init es).conns c = some cn) (hd : (run init es).conns d = some dn)
+    (hx : cn.holds k x) (hy : dn.holds k x) : c = d :=
+  (ownership_invariant es).distinct c d cn dn k x hc hd hx hy
+
+/-- No leak: an object that is accounted for (in its pool, or held by a live connection) is still accounted for after
+any further event — except at the places where `Serve` deliberately lets it go (`deliberate`): the context of an
+exiled request at the end of the connection; the body stream on the returns before the release site (response
+write / flush failure, unrecovered panic); a hijack conn the user keeps (`KeepHijackedConns`). -/
+theorem every_acquired_released_or_owned (es : List Ev) (e : Ev) (k : Kind) (x : Nat)
+    (ht : tracked (run init es) k x) :
+    tracked (step (run init es) e) k x ∨ deliberate (run init es) e k x :=
+  tracked_step _ e k x (ownership_invariant es) ht
+
+/-- … and the listed places do lose the object (the exceptions are not vacuous): stream on a write failure,
+exiled context, kept hijack conn. -/
+example :
+    let es := [Ev.accept 0 0, .read 0 true 0, .handle 0 false .returned, .respond 0 false false]
+    tracked (run init es) .stream 1 ∧ ¬ tracked (step (run init es) (.finish 0)) .stream 1 ∧
+      deliberate (run init es) (.finish 0) .stream 1 := by
+  refine ⟨Or.inr ⟨0, _, rfl, by decide⟩, ?_, ⟨_, rfl, by decide, Or.inr ⟨rfl, Or.inl rfl⟩⟩⟩
+  rintro (h | ⟨c, cn, hc, _⟩)
+  · revert h; decide
+  · by_cases e : c = 0
+    · subst e
+      have : (step (run init [Ev.accept 0 0, .read 0 true 0, .handle 0 false .returned, .respond 0 false false])
+          (.finish 0)).conns 0 = none := by decide
+      rw [this] at hc; cases hc
+    · have : (step (run init [Ev.accept 0 0, .read 0 true 0, .handle 0 false .returned, .respond 0 false false])
+          (.finish 0)).conns c = none := by
+        simp [run, step, init, State.setConn, State.setPool, State.put, take, e]
+      rw [this] at hc; cases hc
+
+/-- non-vacuity: two keep-alive connections with streamed bodies interleaved, one closes, a third reuses its objects -/
+example :
+    let es := [Ev.accept 0 0, .accept 1 0, .read 0 true 0, .read 1 true 0, .handle 0 false .returned,
+      .respond 0 true false, .after 0 .close 0, .finish 0, .accept 2 0, .handle 1 false .returned, .read 2 true 0]
+    (run init es).pool .ctx = [] ∧ (run init es).pool .stream = [] ∧
+    ((run init es).conns 2).map (fun cn => (cn.ctx, cn.stream)) = some (0, some 2) ∧
+    ((run init es).conns 1).map (fun cn => (cn.ctx, cn.stream)) = some (1, some 3) := by decide
+
+/-- The hazard the discipline lives with: after "Release request body stream" `ctx.Request.bodyStream` still points
+to the pooled object until `ResetWithoutConn()`/`Reset()` (the hijack handler and the deferred function run in that
+window).  Nothing in `Serve` dereferences it there — which is exactly what a second release would do. -/
+theorem released_reference_dangles :
+    let s := run init [Ev.accept 0 0, .read 0 true 0, .handle 0 false .returned, .respond 0 true false]
+    (s.conns 0).map (fun cn => (cn.stream, cn.owns .stream)) = some (some 1, false) ∧ s.pool .stream = [1] := by decide
+
+/-- `Put` is unconditional in the model (as in `sync.Pool`): releasing through a dangling reference puts the
+object a second time — the discipline is a property of the release SITES, not of the pool. -/
+theorem second_release_breaks_nodup (s : State) (k : Kind) (x : Nat) : ¬ (((s.put k x).put k x).pool k).Nodup := by
+  simp [State.put, State.setPool]
+
+/-- scripts (what the harness drives) are runs: every scripted schedule of connections keeps the discipline -/
+theorem scripted_connections_keep_discipline (scripts : List (Nat × Bool × Bool × List Req)) :
+    Inv (run init (scripts.flatMap (fun p => Ev.accept p.1 0 :: connEvents p.1 p.2.1 p.2.2.1 p.2.2.2))) :=
+  ownership_invariant _
+
+example : (run init (Ev.accept 0 0 :: connEvents 0 false false
+      [{ readable := true, streamed := true }, { readable := true, streamed := true, close := true }])).pool .stream = [1]
+    ∧ (run init (Ev.accept 0 0 :: connEvents 0 false false
+      [{ readable := true, streamed := true }, { readable := true, streamed := true, close := true }])).pool .ctx = [0] := by
+  decide
+
+end Ownership
+
 /-
 TODO-OPEN (not provable in this model, covered by the differential runs only):
 
@@ -279,6 +376,15 @@ TODO-OPEN (not provable in this model, covered by the differential runs only):
   is caught by the probes only).
 * nil versus empty slices/maps after a reset (`Keys == nil`, `Body() == nil`) are identified by the model.
 * `traceInfo.Reset()` (tracer statistics) and the closing of `finished` / body streams are effects outside the state.
+* Ownership model (`Model/PoolOwn.lean`): the byte buffers of request/response bodies (`requestBodyPool`,
+  `responseBodyPool`: put back only when their capacity exceeds `maxKeepBodySize`), `eventStackPool` (tracing), the
+  multipart form and the `traceInfo` object are not in the state machine (their sites ARE in the generated site list, so
+  a new release site still breaks `release_sites_match_gen`).  `NoHijackConnPool` and `disabaleRequestContextPool`
+  (no pooling at all) are not modelled.  The user closing a kept hijack conn twice (`hijackConn.Close` with
+  `KeepHijackedConns`) releases it twice: outside `Serve`, recorded as an observation in INTEGRATION.md.
+* The guard CORRELATION of `Serve` (which ending follows which handler flags) is over-approximated: `Ev.after` picks
+  the branch freely; the script-level function `connEvents` fixes the order of the guards and is compared with the real
+  server on every `own` case.
 * That `obs…` erases exactly what no exported getter can see is an assumption about ~400 getters; the probe dump calls
   every exported nullary method and visitor of the real objects and found one exception, `RequestHeader.GetBufValue`.
 -/
